@@ -27,13 +27,16 @@
 (* Bytes are integers; the harness maps them to byte values.                                    *)
 EXTENDS Integers, Sequences, TLC
 
-CONSTANTS Flavor,    \* "client" | "clienttls" | "incomer" | "incomertls" | "serial" | "device"
+CONSTANTS Flavors,   \* subset of {"client", "clienttls", "incomer", "incomertls", "serial", "device"}
+          Modes,     \* subset of {"tx", "rx", "both"}: which side of the transport a behaviour of the model exercises
           MaxMsgs,   \* messages queued during a behaviour
           MaxLen,    \* bytes per message
           MaxRx,     \* bytes the peer delivers during a behaviour
           MaxChunks  \* chunks delivered within one service call
 
-VARIABLES txes,       \* queue of messages still to send (head first)
+VARIABLES flavor,     \* the transport class (fixed in the initial state)
+          mode,       \* bounds of the model's exploration (fixed in the initial state; no action depends on it)
+          txes,       \* queue of messages still to send (head first)
           wire,       \* every byte the socket accepted, in order
           wlog,       \* payload bytes in the wire log's transmit side
           queued,     \* history: every byte ever queued, in order
@@ -47,11 +50,12 @@ VARIABLES txes,       \* queue of messages still to send (head first)
           res,        \* result of the last operation
           act         \* the last operation and the environment's answers to it (TLC only labels actions whose
                       \* parameters range over constant sets, so the replay harness reads the step from here)
-vars == <<txes, wire, wlog, queued, rxbs, rlog, delivered, taken, accepted, connected, cutoff, res, act>>
+vars == <<flavor, mode, txes, wire, wlog, queued, rxbs, rlog, delivered, taken, accepted, connected, cutoff, res, act>>
 
-IsClient == Flavor \in {"client", "clienttls"}
-IsTls == Flavor \in {"clienttls", "incomertls"}
-IsSerial == Flavor \in {"serial", "device"}
+IsClient == flavor \in {"client", "clienttls"}
+IsTls == flavor \in {"clienttls", "incomertls"}
+IsSerial == flavor \in {"serial", "device"}
+Same == UNCHANGED <<flavor, mode>>
 
 R(k, n, d) == [k |-> k, n |-> n, d |-> d]
 Full == R("full", 0, <<>>)
@@ -71,7 +75,8 @@ Bytes(s) == [t |-> "bytes", v |-> s]
 RECURSIVE Flat(_)
 Flat(q) == IF q = <<>> THEN <<>> ELSE Head(q) \o Flat(Tail(q))
 
-Init == /\ txes = <<>> /\ wire = <<>> /\ wlog = <<>> /\ queued = <<>>
+Init == /\ flavor \in Flavors /\ mode \in Modes
+        /\ txes = <<>> /\ wire = <<>> /\ wlog = <<>> /\ queued = <<>>
         /\ rxbs = <<>> /\ rlog = <<>> /\ delivered = <<>> /\ taken = <<>>
         /\ accepted = ~IsClient /\ connected = ~IsClient
         /\ cutoff = FALSE /\ res = None /\ act = Act("Init", <<>>, "", "")
@@ -79,7 +84,7 @@ Init == /\ txes = <<>> /\ wire = <<>> /\ wlog = <<>> /\ queued = <<>>
 (* ---------------- queueing ---------------- *)
 Queue(m) == /\ m # <<>>
             /\ txes' = Append(txes, m) /\ queued' = queued \o m
-            /\ res' = None /\ act' = Act("Queue", m, "", "")
+            /\ res' = None /\ act' = Act("Queue", m, "", "") /\ Same
             /\ UNCHANGED <<wire, wlog, rxbs, rlog, delivered, taken, accepted, connected, cutoff>>
 
 (* ---------------- transmit ---------------- *)
@@ -111,7 +116,7 @@ ServiceTx(s) ==
             /\ txes' = p.q /\ wire' = wire \o p.out /\ wlog' = wlog \o p.out
             /\ cutoff' = (cutoff \/ p.cut)
        ELSE s = <<>> /\ UNCHANGED <<txes, wire, wlog, cutoff>>
-    /\ res' = None /\ act' = Act("ServiceTx", s, "", "")
+    /\ res' = None /\ act' = Act("ServiceTx", s, "", "") /\ Same
     /\ UNCHANGED <<queued, rxbs, rlog, delivered, taken, accepted, connected>>
 
 \* serial.Driver.serviceTxOnce: "Service one data on the .txes deque to send through device"
@@ -123,7 +128,7 @@ ServiceTxOnce(s) ==
                /\ p.ok
                /\ txes' = p.q \o Tail(txes) /\ wire' = wire \o p.out /\ wlog' = wlog \o p.out
        ELSE s = <<>> /\ UNCHANGED <<txes, wire, wlog>>
-    /\ res' = None /\ act' = Act("ServiceTxOnce", s, "", "")
+    /\ res' = None /\ act' = Act("ServiceTxOnce", s, "", "") /\ Same
     /\ UNCHANGED <<queued, rxbs, rlog, delivered, taken, accepted, connected, cutoff>>
 
 (* ---------------- receive ---------------- *)
@@ -146,7 +151,7 @@ ServiceRx(s) ==
             /\ rxbs' = rxbs \o p.in /\ rlog' = rlog \o p.in /\ delivered' = delivered \o p.in
             /\ cutoff' = (cutoff \/ p.cut)
        ELSE s = <<>> /\ UNCHANGED <<rxbs, rlog, delivered, cutoff>>
-    /\ res' = None /\ act' = Act("ServiceRx", s, "", "")
+    /\ res' = None /\ act' = Act("ServiceRx", s, "", "") /\ Same
     /\ UNCHANGED <<txes, wire, wlog, queued, taken, accepted, connected>>
 
 \* serviceReceiveOnce: exactly one answer of the socket
@@ -159,12 +164,12 @@ ServiceRxOnce(s) ==
                /\ rxbs' = rxbs \o p.in /\ rlog' = rlog \o p.in /\ delivered' = delivered \o p.in
                /\ cutoff' = (cutoff \/ p.cut)
        ELSE s = <<>> /\ UNCHANGED <<rxbs, rlog, delivered, cutoff>>
-    /\ res' = None /\ act' = Act("ServiceRxOnce", s, "", "")
+    /\ res' = None /\ act' = Act("ServiceRxOnce", s, "", "") /\ Same
     /\ UNCHANGED <<txes, wire, wlog, queued, taken, accepted, connected>>
 
 \* catRxbs: "Return copy and clear .rxbs"
 Cat == /\ ~IsSerial
-       /\ res' = Bytes(rxbs) /\ taken' = taken \o rxbs /\ rxbs' = <<>> /\ act' = Act("Cat", <<>>, "", "")
+       /\ res' = Bytes(rxbs) /\ taken' = taken \o rxbs /\ rxbs' = <<>> /\ act' = Act("Cat", <<>>, "", "") /\ Same
        /\ UNCHANGED <<txes, wire, wlog, queued, rlog, delivered, accepted, connected, cutoff>>
 
 (* ---------------- connecting (clients) ---------------- *)
@@ -176,10 +181,17 @@ Connect(c, h) ==
     /\ accepted' = (accepted \/ c = "ok")
     /\ IF IsTls /\ accepted' THEN h \in {"ok", "want"} ELSE h = "na"
     /\ connected' = IF IsTls THEN h = "ok" ELSE accepted'
-    /\ res' = Bool(connected') /\ act' = Act("Connect", <<>>, c, h)
+    /\ res' = Bool(connected') /\ act' = Act("Connect", <<>>, c, h) /\ Same
     /\ UNCHANGED <<txes, wire, wlog, queued, rxbs, rlog, delivered, taken, cutoff>>
 
 (* ---------------- the model's choice of environment answers ---------------- *)
+\* bounds of the exploration: the two directions are independent, so they are explored deeply one at a time ("tx", "rx")
+\* and together with smaller bounds ("both")
+Min(a, b) == IF a < b THEN a ELSE b
+BMsgs == CASE mode = "tx" -> MaxMsgs [] mode = "rx" -> 0 [] OTHER -> Min(1, MaxMsgs)
+BLen == CASE mode = "tx" -> MaxLen [] mode = "rx" -> 0 [] OTHER -> Min(2, MaxLen)
+BRx == CASE mode = "tx" -> 0 [] mode = "rx" -> MaxRx [] OTHER -> 1
+BChunks == CASE mode = "tx" -> 0 [] mode = "rx" -> MaxChunks [] OTHER -> 1
 NextMsg(n) == [i \in 1..n |-> Len(queued) + i]
 NextChunk(off, n) == [i \in 1..n |-> Len(delivered) + off + i]
 Fulls(j) == [i \in 1..j |-> Full]
@@ -187,22 +199,24 @@ TxTerminals(m) == {Zero, Block} \cup {Part(k) : k \in 1..(Len(m) - 1)} \cup (IF 
 TxScripts(q) == {Fulls(Len(q))} \cup
                 UNION {{Fulls(j) \o <<t>> : t \in TxTerminals(q[j + 1])} : j \in 0..(Len(q) - 1)}
 RxTerminals == IF IsSerial THEN {Block, Empty} ELSE {Block, Closed, Loss}
-Room == MaxRx - Len(delivered)
+Room == BRx - Len(delivered)
 \* scripts of up to MaxChunks chunks (sizes 1 or 2) followed by a terminal answer
 RECURSIVE ChunkSeqs(_, _, _)
 ChunkSeqs(off, k, room) ==
     {<<>>} \cup (IF k = 0 THEN {} ELSE
                  UNION {{<<Data(NextChunk(off, n))>> \o rest : rest \in ChunkSeqs(off + n, k - 1, room - n)}
                         : n \in {x \in 1..2 : x <= room}})
-RxScripts == {c \o <<t>> : c \in ChunkSeqs(0, MaxChunks, Room), t \in RxTerminals}
+RxScripts == {c \o <<t>> : c \in ChunkSeqs(0, BChunks, Room), t \in RxTerminals}
 RxOnce == {<<t>> : t \in RxTerminals} \cup {<<Data(NextChunk(0, n))>> : n \in {x \in 1..2 : x <= Room}}
 
-Next == \/ \E n \in 1..MaxLen : Len(queued) + n <= MaxMsgs * MaxLen /\ Len(txes) < MaxMsgs /\ Queue(NextMsg(n))
-        \/ \E s \in (IF Usable THEN TxScripts(txes) ELSE {<<>>}) : ServiceTx(s)
-        \/ \E s \in (IF Usable /\ txes # <<>> THEN TxScripts(<<Head(txes)>>) ELSE {<<>>}) : ServiceTxOnce(s)
-        \/ \E s \in (IF Usable THEN RxScripts ELSE {<<>>}) : ServiceRx(s)
-        \/ \E s \in (IF Usable THEN RxOnce ELSE {<<>>}) : ServiceRxOnce(s)
-        \/ Cat
+TxSide == mode # "rx"
+RxSide == mode # "tx"
+Next == \/ \E n \in 1..BLen : Len(queued) + n <= BMsgs * BLen /\ Len(txes) < BMsgs /\ Queue(NextMsg(n))
+        \/ TxSide /\ \E s \in (IF Usable THEN TxScripts(txes) ELSE {<<>>}) : ServiceTx(s)
+        \/ TxSide /\ \E s \in (IF Usable /\ txes # <<>> THEN TxScripts(<<Head(txes)>>) ELSE {<<>>}) : ServiceTxOnce(s)
+        \/ RxSide /\ \E s \in (IF Usable THEN RxScripts ELSE {<<>>}) : ServiceRx(s)
+        \/ RxSide /\ \E s \in (IF Usable THEN RxOnce ELSE {<<>>}) : ServiceRxOnce(s)
+        \/ RxSide /\ Cat
         \/ \E c \in {"ok", "pending", "na"}, h \in {"ok", "want", "na"} : Connect(c, h)
 Spec == Init /\ [][Next]_vars
 
